@@ -548,11 +548,36 @@ def main():
         "probe; the property oracle, not the model, decides violations",
         "correspondence is sampled: agreement is established on the cases run",
     ]
-    run.cov["trusted_base"] += ["harness/c19.py, harness/synth_daily.py (generator, adapter, canonicalisation, local-date extraction)",
+    run.cov["trusted_base"] += ["harness/translate_billing_agg.py (ast reading of the aggregation chain and of the column/reducer table of "
+                                "BillingModel.predict and BillingWeightedModel.predict; fail-closed; output in the samples)",
+                                "harness/c19.py, harness/synth_daily.py (generator, adapter, canonicalisation, local-date extraction)",
                                 "pandas semantics (resample('MS'/'2MS') bins on a tz-aware index, sum/mean/first NaN conventions, "
                                 "np.sum on a Series) re-specified in Model/BillingAgg.v",
                                 "Python str.lower agrees with the model's ASCII lower on the question `== 'none'`"]
-    run.check_proofs("Properties/C19.v", ["Proofs/BillingAggProofs.v", "Proofs/BillingAggRoot.v"])
+    # step 0: the source's own tables (argument chain, column -> reducer) -> Generated/BillingAggGen.v
+    import translate_billing_agg
+    tables, terr = translate_billing_agg.generate(run)
+    why = translate_billing_agg.unrecognised(tables, terr)
+    run.cov["translated_from_source"] = {
+        tag: {"argument_chain": ["%s%s -> %s%s" % (k, "" if lit is None else " %r" % lit, r, "" if rule is None else " %r" % rule)
+                                 for (k, lit), (r, rule) in t["chain"]] + ["else -> raise " + t["else"]],
+              "aggregation_table": ["%s: %s%s" % (c, red, " (only when present)" if opt else "") for c, red, opt in t["table"]]}
+        for tag, t in tables.items()}
+    run.sample({"translated_from_source": run.cov["translated_from_source"]})
+    if why:
+        # The aggregation block is algorithmic Python: a rewrite that keeps the behaviour may take a shape the translator does
+        # not read.  That alone is not a violation (DESIGN 2.1: behavioural ties survive refactors): the source-table tie is
+        # declared NOT established, the obligations are checked against the model's own tables, and the verdict rests on
+        # the correspondence and the oracle below.  Tables that ARE read and say something else break C19_source_* for real.
+        run.log("SOURCE TABLES NOT READ (obligations C19_source_argument_chain / C19_source_aggregation_table not established "
+                "on this run; verdict from correspondence + oracle): " + why)
+        run.cov["source_tables_tie"] = "NOT ESTABLISHED on this run: " + why
+        translate_billing_agg.generate(run, fallback=True)
+    else:
+        run.cov["source_tables_tie"] = ("established: the if/elif chain on `aggregation` and the column/reducer table of BillingModel.predict "
+                                        "and BillingWeightedModel.predict were read from the source and C19_source_* re-checked against them")
+    run.check_proofs("Properties/C19.v", ["Proofs/BillingAggProofs.v", "Proofs/BillingAggRoot.v", "Proofs/BillingAggGenProofs.v"],
+                     generated=["Generated/BillingAggGen.v"])
     run.ensure_models(["Model/BillingAggRun.v", "Model/CasesLib.v"])
     mode, pcase, pobs = detect_mode()
     run.cov["missing_observed_column_behaviour_detected"] = MODE_NAMES.get(mode, "unrecognised")
